@@ -13,7 +13,8 @@ def eps_class(fit, phi, npts, loc=1.0):
       dlite       MINPACK leastsq from the centroid, default ftol/xtol 1.49e-8 (relative to the centre coordinates);
                   nearly straight interfaces (|phi| < 1e-2) stop early: observed up to 4.3e-3
       both        |phi| < 1e-7: the fit is degenerate (taubin falls back to dlite): observed up to 2.4e-4"""
-    if npts == 2:
+    if npts == 2 or (phi == 0.0 and loc <= 100):
+        # two points, or exactly straight and detected as such by BigEdge.is_straight(): direction of the edge itself
         return 1e-12 * (1 + loc)
     a = abs(phi)
     if fit == "taubinSVD":
@@ -96,6 +97,8 @@ def nullspace_dim(A, rtol=1e-9):
 def sigma_min_aug(A):
     M, _ = augment(A)
     s = np.linalg.svd(M, compute_uv=False)
+    if M.shape[0] < M.shape[1]:
+        return 0.0, float(s.max())          # fewer equations than unknowns: never unique
     return float(s.min()), float(s.max())
 
 
